@@ -417,3 +417,28 @@ M2('c03-response-stack-deque-appended', 'C03', 'R3', [
     {'file': 'falcon/app_helpers.py', 'old': "    response_mw: Union[List[APResponse], List[PResponse]] = []\n", 'new': "    response_mw = deque()  # type: ignore[var-annotated]\n"},
     {'file': 'falcon/app_helpers.py', 'old': "                response_mw.insert(0, process_response)  # type: ignore[arg-type]\n",
      'new': "                response_mw.append(process_response)  # type: ignore[arg-type]\n"}])
+
+# ---- the handle outcome may be held in a local (`handled = self._handle_exception(...)`): an inverted test must still be reported
+M('c03-wsgi-handled-local-inverted', 'C03', None, 'falcon/app.py',
+  """        except Exception as ex:
+            if not self._handle_exception(req, resp, ex, params):
+                raise
+        else:
+""", """        except Exception as ex:
+            handled = self._handle_exception(req, resp, ex, params)
+            if handled:
+                raise
+        else:
+""", also=('C06', 'C20', 'C02', 'C04', 'C05'))
+
+# ---- own preserving variants (iterable held in a local, enumerate, snapshot of resp.complete): the breaks must still be reported
+M('c03-shutdown-forward-through-local', 'C03', 'R5', 'falcon/asgi/app.py',
+  "                for handler in reversed(self._unprepared_middleware):\n",
+  "                handlers = list(self._unprepared_middleware)\n                for handler in handlers:\n")
+M('c03-startup-reversed-through-enumerate', 'C03', 'R5', 'falcon/asgi/app.py',
+  "                for handler in self._unprepared_middleware:\n                    if hasattr(handler, 'process_startup'):\n",
+  "                for _idx, handler in enumerate(reversed(self._unprepared_middleware)):\n                    if hasattr(handler, 'process_startup'):\n")
+M('c03-wsgi-complete-snapshot-inverted', 'C03', None, 'falcon/app.py',
+  "            if not resp.complete:\n                # NOTE(warsaw): Moved this to inside the try except\n",
+  "            completed = resp.complete\n            if completed:\n                # NOTE(warsaw): Moved this to inside the try except\n",
+  also=('C06', 'C20', 'C02', 'C04', 'C05'))
